@@ -201,8 +201,52 @@ def with_record(block, where):
     return block + rec
 
 
+def big_xyz_frame(n, tag="big"):
+    return f"{n}\n{tag}_{n}\n" + "".join(f"{'CHNO'[i % 4]:<5} {i * 0.001 + 0.125:12.6f} {(i % 7) * 0.5 - 1.25:12.6f} {-(i % 11) * 0.25 + 0.375:12.6f}\n" for i in range(n))
+
+
+def big_mol2_block(n, tag="big"):
+    out = [f"# generated for the C10 check\n@<TRIPOS>MOLECULE\n{tag}_{n}\n{n} {n - 1} 0 0 0\nSMALL\nUSER_CHARGES\n\n@<TRIPOS>ATOM\n"]
+    for i in range(n):
+        e = "CHNO"[i % 4]
+        out.append(f"{i + 1:>6} {e + str(i + 1):<6} {i * 0.001 + 0.125:>12.6f} {(i % 7) * 0.5 - 1.25:>12.6f} {-(i % 11) * 0.25 + 0.375:>12.6f} {e:<10} 1 UNL1 {((i % 5) - 2) * 0.1:0.3f}\n")
+    out.append("@<TRIPOS>BOND\n")
+    for i in range(n - 1):
+        out.append(f"{i + 1:>6} {i + 1:>6} {i + 2:>6} {'1':>3}\n")
+    return "".join(out)
+
+
+BIG_XYZ = (511, 512, 513, 1023, 1024, 1025, 4096)
+BIG_MOL2 = (256, 1024)
+QUICK_BIG = (
+    [f"big:xyz:{n}" for n in BIG_XYZ]
+    + ["big:xyz:512:sandwich", "big:xyz:1024:sandwich", "gen_nanotube.xyz"]
+    + [f"big:mol2:{n}" for n in BIG_MOL2]
+    + ["big:mol2:256:sandwich"]
+)
+THOROUGH_BIG = QUICK_BIG + [f"big:xyz:{n}:sandwich" for n in BIG_XYZ if n not in (512, 1024)] + ["big:mol2:1024:sandwich", "file:nanotube.mol2"]
+LARGE_LINES = 400  # a text with more lines than this gets the fault menu on a stride of its lines
+
+
 def base_text(name):
     """name -> (fmt, text).  'file:<bundled file>' or a generated text."""
+    if name.startswith("big:"):
+        # texts on both sides of plausible size thresholds of a reader (a frame of n atoms, alone or
+        # between two small frames)
+        parts = name.split(":")
+        fmt, n = parts[1], int(parts[2])
+        sandwich = len(parts) > 3
+        if fmt == "xyz":
+            t = big_xyz_frame(n)
+            if sandwich:
+                t = lone_atom().dumps_xyz() + t + ml.Molecule.load_mol2(FILES / "dummy.mol2").dumps_xyz()
+        else:
+            t = big_mol2_block(n)
+            if sandwich:
+                t = lone_atom().dumps_mol2() + t + ml.Molecule.load_mol2(FILES / "dummy.mol2").dumps_mol2()
+        return (fmt, t)
+    if name == "gen_nanotube.xyz":
+        return ("xyz", ml.Molecule.load_mol2(FILES / "nanotube.mol2").dumps_xyz())
     if name.startswith("file:"):
         p = FILES / name[5:]
         return (p.suffix[1:], p.read_text())
@@ -340,8 +384,13 @@ def judge(ctx, base, doc2, faults, record=True):
     text = T.doc_text(doc2)
     h = hashlib.sha1((fmt + "\0" + text).encode()).hexdigest()[:20]
     ctx.state_keys.add(h)
-    cat = T.classify(fmt, text, base.ref)
     out = guarded_read(fmt, text, len(doc2))
+    if len(base.doc) > LARGE_LINES and out[0] == "exc":
+        # a large text the reader refused needs no verdict of the reference reader (it is only asked
+        # whether something that was RETURNED may differ); such cases are not counted as non-trivial
+        cat = "large-rejected-unclassified"
+    else:
+        cat = T.classify(fmt, text, base.ref)
     ctx.count(evaluations=1, transitions=1, traces=1)
     f0 = faults[-1]
     loc = T.fault_location(base.doc, f0) if len(faults) == 1 else None
@@ -434,13 +483,22 @@ def fills(ctx):
     return FILLS[ctx.seed % len(FILLS)], INFIXES[ctx.seed % len(INFIXES)], True, NUMS[ctx.seed % len(NUMS)]
 
 
+def chosen_lines(base, thorough):
+    """None for an ordinary text; for a large one the stride of lines the fault menu is applied to"""
+    if len(base.doc) <= LARGE_LINES:
+        return None
+    runs = max(sum(1 for l in base.doc if l[1] in ("atom", "xyz-atom")), 1)
+    stride = 50 if thorough else max(50, (runs + 1) // 2)  # quick: first, middle, last line of every run
+    return T.stride_lines(base.doc, stride)
+
+
 def run_single(ctx, part):
     """part = (base name, chunk index, number of chunks): every single fault of the base text whose
     ordinal is congruent to the chunk index"""
     install_guards()
     name, ci, nc = part
     base = Base(name)
-    fargs = fills(ctx)
+    fargs = fills(ctx) + (chosen_lines(base, ctx.thorough),)
     n = 0
     for f in T.enumerate_faults(base.doc, *fargs):
         if n % nc == ci:
@@ -573,9 +631,12 @@ def run(ctx):
     ctx.bound["faults_per_text"] = "all single faults" + ("; all pairs on " + ", ".join(PAIR_BASES) if ctx.thorough else "")
     # sizes decide the number of chunks per base (partition only; every chunk is completed)
     parts = []
-    for b in bases:
+    bigs = THOROUGH_BIG if ctx.thorough else QUICK_BIG
+    ctx.bound["large_base_texts"] = list(bigs)
+    ctx.bound["large_base_texts_lines"] = "every header / count / section line, and of every run of atom / bond lines the first, the last and every " + ("50th" if ctx.thorough else "middle one") + "; byte cuts on the last line; token splits in the middle"
+    for b in bases + list(bigs):
         base = Base(b)
-        nf = sum(1 for _ in T.enumerate_faults(base.doc))
+        nf = sum(1 for _ in T.enumerate_faults(base.doc, only_lines=chosen_lines(base, ctx.thorough)))
         nc = max(1, min(32, (nf * len(base.doc)) // 150_000))
         parts += [("single", b, i, nc) for i in range(nc)]
     if ctx.thorough:
